@@ -149,6 +149,12 @@ static void hand_over(int me, int next, const char *why)
 
 /* give every other runnable thread a chance first (for harness-level polling loops, which must not depend on the
  * schedule stream choosing somebody else) */
+int sched_other_runnable(void)
+{
+	if (!sched_active || my_slot < 0) return 0;
+	for (int i = 0; i < nthr; i++) if (i != my_slot && runnable(i)) return 1;
+	return 0;
+}
 void sched_yield_to_others(const char *why)
 {
 	if (!sched_active || my_slot < 0) return;
